@@ -92,6 +92,18 @@ fn check_clone<const L: usize>() {
     assert!(c == s, "C14 clone compares equal");
     if kani::any() { drop(s); well_formed(&c, &a); } else { drop(c); well_formed(&s, &a); }
 }
+fn check_clone_from<const L1: usize, const L2: usize>() {
+    let a = any_utf8::<L1>();
+    let b = any_utf8::<L2>();
+    let mut sa = ReprCString::from(unsafe { core::str::from_utf8_unchecked(&a) });
+    let sb = ReprCString::from(unsafe { core::str::from_utf8_unchecked(&b) });
+    sa.clone_from(&sb);
+    well_formed(&sa, &b);
+    well_formed(&sb, &b);
+    assert!(sa.0.as_ptr() != sb.0.as_ptr(), "C14 clone_from leaves the target with its own buffer");
+    assert!(unsafe { string_size(sa.0.as_ptr()) } == prefix_len(&b) + 1, "C14 after clone_from the buffer is exactly content + NUL (it is later freed with that size)");
+    if kani::any() { drop(sb); well_formed(&sa, &b); } else { drop(sa); well_formed(&sb, &b); }
+}
 fn check_eq<const L1: usize, const L2: usize>() {
     let a = any_utf8::<L1>();
     let b = any_utf8::<L2>();
@@ -164,6 +176,7 @@ macro_rules! inst { ($n:ident, $u:literal, $f:ident, $($g:tt)*) => { #[kani::pro
 //@ prefix=p_bytes kind=property clause=From<&[u8]>: same contract for byte slices (incl. inputs without any NUL)
 //@ prefix=p_string kind=property clause=From<String>: same contract
 //@ prefix=p_clone kind=property clause=clone: own buffer, same content, both independently droppable
+//@ prefix=p_clonefrom kind=property clause=clone_from (assignment from a shorter / longer string): target reads back as the source from its own buffer of exactly content + NUL, both independently droppable, freed with the allocation size
 //@ prefix=p_eq kind=property clause=PartialEq (ReprCString and borrowed ReprCStr) is content equality
 //@ prefix=p_hash kind=property clause=Hash feeds the hasher exactly what the content string feeds
 //@ prefix=p_cstr kind=property clause=ReprCStr borrowed from a CStr reads back the same text
@@ -183,6 +196,15 @@ fn table_case(b: &[u8]) {
     assert!(s1 == s2 && s2 == s3, "C14 equal content compares equal");
     let other = ReprCString::from("zz\u{7f}");
     assert!(!(s1 == other), "C14 different content compares unequal");
+    // assignment by clone_from, from a longer and into a longer string: own buffer of exactly
+    // content + NUL (the dealloc-size obligation checks the later release)
+    let mut s4 = ReprCString::from("0123456");
+    s4.clone_from(&s1);
+    well_formed(&s4, b);
+    assert!(s4.0.as_ptr() != s1.0.as_ptr(), "C14 clone_from leaves the target with its own buffer");
+    let mut s5 = ReprCString::from("");
+    s5.clone_from(&s1);
+    well_formed(&s5, b);
 }
 //@ prefix=t_table kind=property clause=concrete table (lengths up to 9, multi-byte, interior/trailing NUL, unterminated): buffer contents, read-back, clone, equality, dealloc-size and leak obligations
 #[kani::proof] #[kani::unwind(9)] fn t_table_a() { table_case(b"ab\0cd"); table_case("h\u{e9}l\0o".as_bytes()); kani::cover!(true, "end"); }
